@@ -34,5 +34,6 @@ RULES = [
     ("C05.addprev", lambda c, r: __import__("sa.rules.lfht2", fromlist=["x"]).rule_addprev(c, r, "C05.addprev")),
     ("C05.partloops", lambda c, r: __import__("sa.rules.lfht2", fromlist=["x"]).rule_partloops(c, r, "C05.partloops")),
     ("C05.createbucket", lambda c, r: __import__("sa.rules.lfht2", fromlist=["x"]).rule_createbucket(c, r, "C05.createbucket")),
+    ("C05.online", lambda c, r: lfht.rule_online(c, r, "C05.online")),   # an offline thread is not a reader: no table access between thread_offline() and thread_online()
 ]
 FLOORS = {}
